@@ -382,6 +382,16 @@ class AsmCFG(DiGraph):
     def del_block(self, block):
         super(AsmCFG, self).del_node(block.loc_key)
         del self._loc_key_to_block[block.loc_key]
+        # The block does not wait for its missing destinations anymore
+        for loc_key, pendings in list(viewitems(self._pendings)):
+            pendings = set(
+                pending for pending in pendings
+                if pending.waiter is not block
+            )
+            if pendings:
+                self._pendings[loc_key] = pendings
+            else:
+                del self._pendings[loc_key]
 
 
     def add_node(self, node):
